@@ -4,6 +4,11 @@ from obl.vset_common import get_obls
 # a: block reads are accepted only with a matching checksum; d: table errors stop the lookup
 OBLIGATIONS = read_block_obls("a") + who_verifies_obls("b") + get_obls("d", 0, ((1, 1, 0, 1, 2, 1), (0, 1, 1, 1, 2, 2)), table_err=1)
 
+# e: an input-iterator error (e.g. a checksum mismatch found while reading a compaction input) fails the
+# compaction, installs nothing and latches the background error (real ldb_do_compaction_work)
+from obl.dbimpl_compact import compaction_obls
+OBLIGATIONS += [o for o in compaction_obls("e") if o.tier == "quick" and "faults1" in o.name][:3]
+
 META = {
     "level": "model_checking",
     "level_text": "Bounded model checking (CBMC) of the code-level contract behind corruption detection: the real ldb_read_block accepts a block with verification on only if the stored trailer equals mask(F(payload||type)) recomputed independently, turns short reads, read errors, unknown block types and absurd sizes into error statuses and returns exactly the payload bytes; the real ldb_version_get returns a table-layer error instead of falling through to older data. (The log-reader side - accepted physical record => checksum matches, drops reported - is decided under C15; decoder totality under C18.)",
